@@ -1,7 +1,7 @@
 (* C01 — Two endpoints built on the library interoperate, even across transport loss.
    Statements only.  Nothing else may be added to this file. *)
 From MQ Require Import Base.Prelude Alloc.Alloc Alloc.AllocProofs Framing.Framing Framing.FramingProofs Conn.Types Conn.ConnRecord Conn.Step
-                       Corr.ConnTrace Conn.Scope Conn.Session Conn.IdsQuota Conn.Own Conn.OwnFrame Conn.OwnStep Conn.Run Conn.PairQos Conn.PairQos0 Conn.PairQos5 Conn.PairSeq Conn.PairSeq5 Conn.PairConc Conn.PairBi Conn.PairConc5 Conn.PairBi5 Conn.PairHandshake5 Conn.PairHandshake311 Conn.PairConcIds Conn.PairConcIds5 Conn.PairBiIds Conn.PairBiIds5 Conn.PairQuiescence Conn.PairManual Conn.PairManual5 Conn.PairManualSeq Conn.PairManualSeq5 Conn.PairHandshakeSeq Conn.SessInv Conn.PairLoss Conn.PairLossAcc Conn.PairLossS Conn.PairHandshakeP Conn.PairLossIds Conn.PairLossSIds Conn.PairSeqMixed Conn.PairSeqMixedFresh Conn.PairSeqMixed2 Conn.PairSeqMixed5 Conn.PairBi5 Conn.PairSeqMixed25 Conn.PairSeqMixedFresh5.
+                       Corr.ConnTrace Conn.Scope Conn.Session Conn.IdsQuota Conn.Own Conn.OwnFrame Conn.OwnStep Conn.Run Conn.PairQos Conn.PairQos0 Conn.PairQos5 Conn.PairSeq Conn.PairSeq5 Conn.PairConc Conn.PairBi Conn.PairConc5 Conn.PairBi5 Conn.PairHandshake5 Conn.PairHandshake311 Conn.PairConcIds Conn.PairConcIds5 Conn.PairBiIds Conn.PairBiIds5 Conn.PairQuiescence Conn.PairManual Conn.PairManual5 Conn.PairManualSeq Conn.PairManualSeq5 Conn.PairHandshakeSeq Conn.SessInv Conn.PairLoss Conn.PairLossAcc Conn.PairLossS Conn.PairHandshakeP Conn.PairLossIds Conn.PairLossSIds Conn.PairSeqMixed Conn.PairSeqMixedFresh Conn.PairSeqMixed2 Conn.PairSeqMixed5 Conn.PairBi5 Conn.PairSeqMixed25 Conn.PairSeqMixedFresh5 Conn.PairManualSeq Conn.PairManualSeq5 Conn.PairSeqMixedM.
 
 (* what the pair property rests on, each proved for ALL states of one endpoint:
    (i) delivery in any fragmentation is the same byte stream (C09) *)
@@ -299,6 +299,37 @@ Theorem C01_fresh_v5_two_way_mixed_sequence : forall gA gB cn ca l,
     end.
 Proof. exact fresh_v5_two_way_mixed_sequence. Qed.
 Print Assumptions C01_fresh_v5_two_way_mixed_sequence.
+
+(* MANUAL RESPONSES with QoS 0 publications in between (Conn/PairSeqMixedM.v): a QoS 0 delivery does not look at the response
+   option - [exchange0_gen] / [exchange0_5_gen] hold for any endpoints - so the manual pair invariants are carried through *)
+Theorem C01_pair_mixed_sequence_exactly_once_manual : forall gs gr ps cs cr,
+  pair_inv_m gs cs cr -> Forall v311_any ps ->
+  match run_mixed_m gs gr cs cr ps with
+  | Done cs' cr' d => d = ps /\ pair_inv_m gs cs' cr'
+  | AppPre => True
+  | Fail => False
+  end.
+Proof. exact run_mixed_m_ok. Qed.
+Print Assumptions C01_pair_mixed_sequence_exactly_once_manual.
+
+Theorem C01_pair_mixed_sequence_exactly_once_manual_v5 : forall gs gr ps cs cr,
+  pair_inv5_m gs gr cs cr -> Forall v5_any ps ->
+  match run_mixed5_m gs gr cs cr ps with
+  | Done cs' cr' d => d = ps /\ pair_inv5_m gs gr cs' cr'
+  | AppPre => True
+  | Fail => False
+  end.
+Proof. exact run_mixed5_m_ok. Qed.
+Print Assumptions C01_pair_mixed_sequence_exactly_once_manual_v5.
+
+(* the QoS 0 step for ANY two established v3.1.1 endpoints, whatever their options: always completes, notified once, nothing
+   of either endpoint's allocator, store, awaited sets or handled identifiers changes *)
+Theorem C01_qos0_step_any_endpoints : forall gs gr cs cr p, OWN gs cs -> ready cs -> ready cr -> v311_pub p 0 ->
+  exists cs' cr', exchange0 gs gr cs cr p = Done cs' cr' [p] /\
+    OWN gs cs' /\ ready cs' /\ c_auto_pub cs' = c_auto_pub cs /\ ready cr' /\ c_auto_pub cr' = c_auto_pub cr /\
+    F8 cs' cs /\ F8 cr' cr /\ c_qos2 cr' = c_qos2 cr /\ c_qos2 cs' = c_qos2 cs.
+Proof. exact exchange0_gen. Qed.
+Print Assumptions C01_qos0_step_any_endpoints.
 
 (* SEVERAL EXCHANGES IN FLIGHT (v3.1.1, automatic responses, intact FIFO links): the system is two endpoints and two
    queues; an action is "the application publishes a QoS 1/2 message" (skipped when its own precondition fails: identifier
